@@ -21,7 +21,9 @@ EXPLANATION = (
     "executed earlier in the same function); (d) every except-clause class and every raised class resolves, and "
     "every raised class is a LenaException subclass, a re-raise of a caught/stored exception or a named "
     "exception; (e) method names passed as strings to adapters with a statically known target exist.  "
-    "Does not decide behaviour beyond name availability.")
+    "(g) on no enumerated path of any function is a local read before it is bound (UnboundLocalError is a NameError; four functions "
+    "with triaged infeasible paths are excepted by name with reasons); names exported in __all__ that are imported under "
+    "try/except ImportError are also bound by the fallback.  Does not decide behaviour beyond name availability.")
 RULES = {
     "C20-a": "every name listed in a module's __all__ is bound in that module after simulated initialisation",
     "C20-b": "every global name loaded in any scope is bound at module level or is a builtin (py2 branches folded)",
